@@ -3,6 +3,7 @@ package c08
 import (
 	"errors"
 	"fmt"
+	"net/url"
 	"sort"
 	"strings"
 	"testing"
@@ -50,6 +51,7 @@ type Case struct {
 	CatchAll    bool   // root ends with a middleware raising the error for everything that reaches it
 	Repeat      int
 	RootCS      bool `json:",omitempty"` // Config.CaseSensitive of the root app
+	RootUnesc   bool `json:",omitempty"` // Config.UnescapePath of the root app (requests may spell a letter of the path as %XX)
 	TopDown     bool `json:",omitempty"` // mount each sub-app into its parent before its own children are mounted into it
 }
 
@@ -155,6 +157,7 @@ func build(c Case) (*fiber.App, *run) {
 	}
 	rootCfg := cfg("root", c.RootHandler)
 	rootCfg.CaseSensitive = c.RootCS
+	rootCfg.UnescapePath = c.RootUnesc
 	root := fiber.New(rootCfg)
 	var mount func(parent *fiber.App, nodes []Node)
 	mount = func(parent *fiber.App, nodes []Node) {
@@ -203,9 +206,16 @@ func check(c Case) vk.Verdict {
 	best, bestDepth := -1, -1
 	for _, cd := range cands {
 		// the root app serves the request: prefix and path are compared the way it routes (case-sensitively or not)
-		lp, lf := strings.ToLower(c.Path), strings.ToLower(cd.full)
+		// ... and on the path it routes by: percent-decoded when the root app was configured with UnescapePath
+		seen := c.Path
+		if c.RootUnesc {
+			if d, err := url.PathUnescape(seen); err == nil {
+				seen = d
+			}
+		}
+		lp, lf := strings.ToLower(seen), strings.ToLower(cd.full)
 		if c.RootCS {
-			lp, lf = c.Path, cd.full
+			lp, lf = seen, cd.full
 		}
 		if cd.full == "" || lp == lf || strings.HasPrefix(lp, lf+"/") {
 			// innermost: the longest prefix, and of two nested sub-apps with the same full prefix the inner one
@@ -341,6 +351,20 @@ func genCase(t *rapid.T) Case {
 	}
 	if rapid.IntRange(0, 4).Draw(t, "othercase") == 0 {
 		c.Path = strings.ToUpper(c.Path) // routing ignores case by default: the mount prefix still contains this path
+	}
+	c.RootUnesc = rapid.IntRange(0, 2).Draw(t, "rootunesc") == 0
+	if rapid.IntRange(0, 3).Draw(t, "pctenc") == 0 {
+		// one letter of the path in its percent-encoded spelling
+		var idx []int
+		for i := 0; i < len(c.Path); i++ {
+			if ch := c.Path[i] | 0x20; ch >= 'a' && ch <= 'z' {
+				idx = append(idx, i)
+			}
+		}
+		if len(idx) > 0 {
+			i := idx[rapid.IntRange(0, len(idx)-1).Draw(t, "pctat")]
+			c.Path = fmt.Sprintf("%s%%%02X%s", c.Path[:i], c.Path[i], c.Path[i+1:])
+		}
 	}
 	c.Method = rapid.SampledFrom([]string{"GET", "GET", "POST", "PUT"}).Draw(t, "method")
 	c.ErrKind = rapid.SampledFrom([]string{"fiber", "plain", "fallthrough", "wrapped", "joined"}).Draw(t, "ek")
